@@ -56,6 +56,12 @@ def apply_edit(m, edit):
             m.update_reaction(name, fn=C._fn(payload))
         elif op == "update_reaction_st":
             m.update_reaction(name, stoichiometry={c: C._coef(cj) for c, cj in payload})
+        elif op == "update_data":
+            import pandas as pd
+
+            m.update_data(name, pd.Series([fexpr.to_float(Fraction(payload))]))
+        elif op == "remove_data":
+            m.remove_data(name)
         elif op == "update_derived":  # new function AND new argument list (possibly empty)
             m.update_derived(name, fn=C._fn(payload), args=list(payload["args"]))
         elif op == "update_reaction":
@@ -77,6 +83,12 @@ def edited_content(case):
             for kv in c["vars"]:
                 if kv[0] == name:
                     kv[1] = {"v": payload}
+        elif op == "update_data":
+            for kv in c.get("data", []):
+                if kv[0] == name:
+                    kv[1] = payload
+        elif op == "remove_data":
+            c["data"] = [kv for kv in c.get("data", []) if kv[0] != name]
         elif op == "update_derived_fn":
             for kv in c["derived"]:
                 if kv[0] == name:
@@ -117,9 +129,19 @@ def gen_edit(rng, content, n=(1, 3)):
             kinds += ["update_derived_fn"] * 2
         if content["rxns"]:
             kinds += ["update_reaction_fn"] * 2 + ["update_reaction_st"]
+        live_data = [k for k, _ in content.get("data", []) if ["remove_data", k, None] not in ops]
+        if live_data:
+            # data sets edited through the API: a new value; a removal (whatever names it is then missing)
+            kinds += ["update_data"] * 2 + ["remove_data"]
         if not kinds:
             break
         op = rng.choice(kinds)
+        if op == "update_data":
+            ops.append([op, rng.choice(live_data), str(rng.choice([1, 2, 4, 5]))])
+            continue
+        if op == "remove_data":
+            ops.append([op, rng.choice(live_data), None])
+            continue
         if op in ("update_parameter", "update_parameters", "scale_parameter"):
             ops.append([op, rng.choice(plain_p), str(rng.choice([1, 2, 4, 5]))])
         elif op == "update_variable":
